@@ -124,7 +124,11 @@ def explore(ctx):
             flips = [rng.random() < 0.5 for _ in range(nd)]
             a2, i2 = arr.transpose(perm), idx.transpose(perm)
             sl = tuple(slice(None, None, -1) if f else slice(None) for f in flips)
-            check('axes:perm=%s flips=%s' % (perm, flips), np.ascontiguousarray(a2[sl]), np.ascontiguousarray(i2[sl]))
+            if rng.random() < 0.5:
+                # hand over the strided view itself (what arr.T / arr[::-1] give a user), not a contiguous copy
+                check('axes:view perm=%s flips=%s' % (perm, flips), a2[sl], np.ascontiguousarray(i2[sl]))
+            else:
+                check('axes:perm=%s flips=%s' % (perm, flips), np.ascontiguousarray(a2[sl]), np.ascontiguousarray(i2[sl]))
         # length-one axis
         if nd < 4:
             pos = rng.randint(0, nd)
@@ -141,6 +145,20 @@ def explore(ctx):
         s_ = float(2 ** c.get('scale', 0))
         check('value:affine a=%s b=%s' % (a, b), arr * a + b, idx,
               minv=(c['minv'] / s_) * a + b, delta=(c.get('delta', 0) / s_) * a)
+        # the same numbers in a narrow signed integer type, spread over most of its range (strictly increasing
+        # map of the values; differences of two pixels do not fit the type)
+        if rng.random() < 0.35 and not any(v is None for v in c['vals']):
+            dt = rng.choice(['int8', 'int16', 'int16', 'int32'])
+            info = np.iinfo(dt)
+            vs = [v for v in c['vals']]
+            mn, mx = min(vs), max(vs)
+            if mx > mn and (mx - mn) <= (int(info.max) - int(info.min)):
+                k = (int(info.max) - int(info.min)) // (mx - mn)
+                off = int(info.min) - mn * k
+                arr_i = np.array([v * k + off for v in vs], dtype=dt).reshape(shape)
+                check('value:integer dtype %s a=%d b=%d' % (dt, k, off), arr_i, idx,
+                      minv=int(c['minv'] * k + off) if c['minv'] * k + off >= int(info.min) else int(info.min) - 1,
+                      delta=int(c.get('delta', 0) * k))
         # any strictly increasing map when no min_delta is in force
         if c.get('delta', 0) == 0:
             f = rng.choice([lambda x: x ** 3, lambda x: np.sign(x) * np.sqrt(np.abs(x)) * 64, lambda x: np.exp2(x / 8.0)])
